@@ -164,6 +164,20 @@ func init() {
 		}
 		return fmt.Sprintf("ok %d %s", n, strJoin(parts))
 	})
+	// refmutsaa <alphabet> <seq> <ref>: the codon-wise list (aa = true)
+	register("refmutsaa", func(a []string) string {
+		s := align.NewSequence("s", []uint8(a[1]), "")
+		r := align.NewSequence("r", []uint8(a[2]), "")
+		l, err := s.ListMutationsComparedToReferenceSequence(atoi(a[0]), r, true)
+		if err != nil {
+			return "err"
+		}
+		parts := make([]string, len(l))
+		for i, m := range l {
+			parts[i] = fmt.Sprintf("%d.%d.%s", m.Ref, m.Pos, hexs(m.Alt))
+		}
+		return "ok " + strJoin(parts)
+	})
 	register("compat", func(a []string) string {
 		ok, err := align.EqualOrCompatible(uint8(atoi(a[0])), uint8(atoi(a[1])))
 		d, err2 := align.NtIUPACDifference(uint8(atoi(a[0])), uint8(atoi(a[1])))
